@@ -848,8 +848,9 @@ def run(run: core.Run, tier: str):
       continue   # int('1_0') accepts underscores, not modelled
     if s.count("(") == 0:
       continue
-    if re.search(r"[eE][+-]?[0-9]{4,}", s):
-      continue   # overflows to inf / underflows in Python; the model computes 10^e exactly
+    if re.search(r"[eE][+-]?[0-9]{3,}", s):
+      continue   # may overflow to inf / underflow in Python (|exponent| >= 100 is not needed for the
+                 # tie; 1e400 is inf); the model computes 10^e exactly
     junk.append(s)
   jl = [{"op": "parse", "s": s} for s in junk]
   for s, o in zip(junk, core.run_driver("C10", jl)):
@@ -857,9 +858,13 @@ def run(run: core.Run, tier: str):
     low = s.lower()
     if "inf" in low or "nan" in low:
       continue
+    try:
+      impl = norm_call(impl_read(s, name))
+    except OverflowError:     # a literal that Python reads as inf: outside the exact-rational protocol
+      run.count("junk_nonfinite_skipped")
+      continue
     run.case(("junk", s), nontrivial=True)
     run.compared += 1
-    impl = norm_call(impl_read(s, name))
     model = norm_call(o)
     run.count("junk_" + ("err_" + impl["err"] if "err" in impl else "accepted"))
     if impl != model:
